@@ -278,6 +278,47 @@ def value_checks(seed):
                     bad.append(dict(case='Solver1D, equation with a mean-field term', violated='get_residuals != equations applied to the solution at '
                                     'the given coordinates', n_points=npts, to_numpy=to_numpy,
                                     max_error=float((got - want).abs().max()) if got.shape == want.shape else 'shape'))
+        # (ix) "the residuals of THAT solution": get_residuals is the user's equations applied to what get_solution returns, also when the
+        # two could differ - a training-time enforcer (SolverSpherical), a user subclass that overrides get_solution
+        spde2 = lambda u, r, th, ph: [diff(u, r) + u]
+        se = S.SolverSpherical(spde2, [DirichletBVPSpherical(0.1, lambda th, ph: th * 0, 1., lambda th, ph: th * 0 + 1)], r_min=0.1, r_max=1.,
+                               nets=[FCNN(3, 1, hidden_units=(4,))], train_generator=GeneratorSpherical(8, 0.1, 1.), valid_generator=GeneratorSpherical(8, 0.1, 1.),
+                               enforcer=lambda net, cond, coords: cond.enforce(net, *coords) + 0.25 * coords[0])
+
+        class Shifted(S.Solver1D):
+            def get_solution(self, copy=True, best=True):
+                base = super().get_solution(copy=copy, best=best)
+                return S.Solution1D(base.nets, [IVP(0., 2.5)])
+        sh = Shifted(lambda u, t: [diff(u, t) + u], [IVP(0., 1.)], t_min=0., t_max=1., nets=[FCNN(1, 1, hidden_units=(3,))],
+                     train_generator=Generator1D(5, 0., 1.), valid_generator=Generator1D(5, 0., 1.))
+        for nm, sv_, eqs_, cds in (('SolverSpherical with an enforcer', se, spde2, [torch.rand(5) + 0.1, torch.rand(5) * 3, torch.rand(5) * 6]),
+                                   ('user subclass overriding get_solution', sh, lambda u, t: [diff(u, t) + u], [torch.rand(5)])):
+            try:
+                sv_.fit(1, tqdm_file=None)
+                res = sv_.get_residuals(*cds, best=False)
+                cs = [c.reshape(-1, 1).requires_grad_() for c in cds]
+                want = eqs_(sv_.get_solution(copy=False, best=False)(*cs), *cs)[0]
+                if not torch.allclose(res.reshape(-1), want.reshape(-1).detach(), rtol=0, atol=1e-12):
+                    bad.append(dict(case=nm, violated='get_residuals is not the equations applied to the solution that get_solution returns',
+                                    max_abs_difference=float((res.reshape(-1) - want.reshape(-1)).abs().max())))
+            except Exception as e:
+                bad.append(dict(case=nm, violated='get_residuals / get_solution raised', error=f'{type(e).__name__}: {e}'))
+        # (x) every get_solution(copy=True) is a snapshot of the solver AS IT IS THEN: a second snapshot after more training is a new one
+        s2 = S.Solver1D(lambda u, t: [diff(u, t) + u], [IVP(0., 1.)], t_min=0., t_max=1., nets=[FCNN(1, 1, hidden_units=(3,))],
+                        train_generator=Generator1D(5, 0., 1.), valid_generator=Generator1D(5, 0., 1.))
+        try:
+            s2.fit(1, tqdm_file=None)
+            first = s2.get_solution(copy=True, best=False)
+            v1 = first(tt).clone()
+            s2.fit(2, tqdm_file=None)
+            s2.conditions[0].u_0 = 1.75
+            second = s2.get_solution(copy=True, best=False)
+            want = s2.conditions[0].enforce(s2.nets[0], tt.reshape(-1, 1)).reshape(tt.shape)
+            if not torch.equal(second(tt), want) or any(a is b for a, b in zip(first.nets, second.nets)) or not torch.equal(first(tt), v1):
+                bad.append(dict(case='two snapshots (copy=True, best=False) with training in between', violated='the second snapshot is not the solver '
+                                'as it is at the second call (or the first one changed)', second_equals_first=bool(torch.equal(second(tt), v1))))
+        except Exception as e:
+            bad.append(dict(case='two snapshots with training in between', violated='raised', error=f'{type(e).__name__}: {e}'))
         # spherical harmonics solution: sum_k enforce(net, r)_k * Y_k
         hf = RealSphericalHarmonics(max_degree=2)
         net = FCNN(1, 9, hidden_units=(5,))
